@@ -2,6 +2,7 @@ import CarModel.Proofs.Cli
 import CarModel.Proofs.Create
 import CarModel.Proofs.FactsTie
 import CarModel.Proofs.InspectFull
+import CarModel.Proofs.Session
 /-
 C19 — CLI outputs are valid archives and mean what the library says.
 
@@ -118,6 +119,23 @@ theorem inspect_accepts_concat_output (H : HashFn) (hU : H.Uniform) (o : ReadOpt
       = .ok (statsOf 1 {} (r1.getD []) ((b1 ++ rest.flatMap (·.2)).map seenOf) 0) :=
   inspect_layoutV1 H hU o true r1 _ hwf hmax h63
     (fun b hb => ⟨(hok b hb).1, (hok b hb).2.1, fun _ => (hok b hb).2.2⟩)
+
+/-- (6) **`car filter --version 2`, `car get-dag --version 2` and `car create` are writing sessions**: each
+    opens a fresh read-write blockstore under its output roots, puts the selected (filter: in source
+    order, `sel` = the source's blocks that pass the CID list or its inverse; get-dag / create: the
+    blocks the traversal / the builder loads, in load order) blocks one by one, and finalizes. For every
+    such block list the output is the layout of exactly the blocks the reference log keeps of it —
+    "filter keeps exactly the selected blocks in source order", once per key — with the flattened
+    index; by (4') `car verify` accepts it when the roots are among them, by C05 inspection does. -/
+theorem filter_getdag_create_output (roots : List Cid) (sel : List Block) (ix : Index)
+    (hix : ((Store.create .blockstore {} (some roots)).1.puts {} sel).idx.flatten codecMhSorted = some ix)
+    (h64 : 51 + ((Store.create .blockstore {} (some roots)).1.puts {} sel).pos < 2 ^ 64) :
+    (((Store.create .blockstore {} (some roots)).1.puts {} sel).step {} .finalize).2.1 = .ok ∧
+    (((Store.create .blockstore {} (some roots)).1.puts {} sel).step {} .finalize).1.file
+      = layoutV2 0 0 (payload (some roots) (Spec.puts {} { api := .blockstore, roots := roots } sel).log)
+          true false ix.bytes := by
+  have := session_file {} (some roots) sel ix rfl hix (by simpa using h64)
+  simpa using this
 
 /-- Non-vacuity: a one-block list is walkable. -/
 example : Walkable [⟨⟨1, 0x55, 0, [1, 2]⟩, [1, 2]⟩] := by
